@@ -103,4 +103,9 @@ recomputed from /repo on every run (tools/extract/skeleton.go), so any change to
 theorem repo_sources_as_transcribed : Crv.Generated.skeletonRepo = Crv.Skeleton.expectedRepo :=
   Crv.Skeleton.repo_sources_as_transcribed
 
+/-- The hand-written `Loader` model this property rests on was transcribed from exactly these sources: the fingerprints are
+recomputed from /repo on every run (tools/extract/skeleton.go), so any change to one of the functions breaks this obligation. -/
+theorem loader_sources_as_transcribed : Crv.Generated.skeletonLoader = Crv.Skeleton.expectedLoader :=
+  Crv.Skeleton.loader_sources_as_transcribed
+
 end Crv.Props.C10
